@@ -43,6 +43,50 @@ DESC = {
     "C20:B": ("Dimension.__new__ lock-free with dict.setdefault, return value ignored", "both threads pass the membership test before either inserts"),
 }
 
+DESC4 = {
+    "C01:A": ("Unit._multiply fast path for a (prefixed) One operand passes self.dimension for the left-hand case", "left operand a prefixed dimensionless unit ((5 km)/(2 m)), product not interned before"),
+    "C01:B": ("Unit.__from_json__ trusts the document's dimension field", "decoding a never-interned compound unit from a document whose dimension disagrees with its factors"),
+    "C02:A": ("Unit.root returns self for every dimensionless unit", "root of a dimensionless unit that is not One (Radian**2, Meter/Foot)"),
+    "C02:B": ("Dimension.root divides magnitudes and restores the exponent's sign only", "negative root degree"),
+    "C03:A": ("Quantity.unprefixed multiplies raw instead of through _mul", "Decimal magnitude under a prefix that quantifies to a float (milli, mixed base): TypeError from commensurable + - == <"),
+    "C03:B": ("Quantity.__pow__ returns 1 * One for exponent 0", "Decimal magnitude ** 0 comes back as int"),
+    "C04:A": ("_find_path_recursive raises only the first hop to the reduced exponent", "unprefixed pure powers of units two declared hops apart (nmi**2 -> ft**2)"),
+    "C04:B": ("_replace_factors pops the first unit of the dimension list instead of removing the replaced one", "two named units of one derived dimension on a side, the first without a finer alternative (pt*gal -> L**2)"),
+    "C05:A": ("_cancel_factors flips the exponent inside the loop for invert=True", "start unit whose own factors cancel twice in one dimension (m*min*h/s**2)"),
+    "C05:B": ("us.py: Cable declared as 100 fathoms next to the metric value of 120 fathoms", "any triple containing Cable and Fathom: route dependence of 20 %"),
+    "C06:A": ("_find_path_recursive raises only the first hop to the exponent", "mile**2 vs inch**2 in + - == <"),
+    "C06:B": ("Prefix.__pow__ truncates the exponent with int()", "** of a quantity whose unit carries a mixed-base prefix (Kilo*Byte)"),
+    "C07:A": ("_plan_conversion failure message indexes the (possibly empty) list of unmatched source factors", "impossible compound conversion whose leftovers are all on the target side: IndexError"),
+    "C07:B": ("_match_factors asserts that the combined start factor has the end factor's dimension", "compound with a denominator against a bare unit of a mixed-sign derived dimension: AssertionError, absent under -O"),
+    "C08:A": ("_inline_paths zeroes the offsets of a memoised path in place for negative exponents", "a compound query with a scale in a denominator, then the plain scale conversion"),
+    "C08:B": ("convert widens decimal.getcontext().prec for long Decimal magnitudes and never restores it", "a 19+-digit Decimal query, then a Decimal conversion with an inexact ratio"),
+    "C10:A": ("Quantity.unprefixed shifts the decimal point (scaleb) for Decimal magnitudes whatever the prefix base", "Decimal temperature under a binary prefix"),
+    "C10:B": ("cross-unit branch of Quantity.__lt__ uses <=", "equal temperatures written in two scales compared with < or >="),
+    "C11:A": ("Unit.root fast path for a single factor whose exponent equals the degree returns the bare factor", "((p*u)**n).root(n), (Kilo*Meter).root(1)"),
+    "C11:B": ("_plan_conversion refactor: loop variables rebind `end` before the target prefix is divided out", "prefixed target whose underlying unit the planner expands (Milli*Liter, Kilo*Calorie)"),
+    "C12:A": ("explicit Quantity.__ne__ that does not convert between base units", "equal quantities in different convertible units: == and != both True, > inconsistent"),
+    "C12:B": ("Quantity.__hash__ from repr()", "equal quantities of one unit with magnitudes 1, 1.0, Decimal('1')"),
+    "C13:A": ("grammar WS redefined without newline, carriage return and form feed (measured.lark and _parser.py)", "texts whose whitespace is a newline or form feed"),
+    "C13:B": ("us.py: Knot gets the alias symbol 'kt'", "str(Kilo*Tonne) == 'kt' now parses to knot"),
+    "C14:A": ("scaled hypot helper without abs() in Measurement * and /", "one exact operand and a negative remaining term"),
+    "C14:B": ("Quantity.root rounds roots of whole-valued magnitudes", "+ / - of measurements whose variances add up to a whole non-square number"),
+    "C15:A": ("Prefix.__from_json__ coerces base and exponent with int()", "JSON of mixed-base prefixes and units carrying them"),
+    "C15:B": ("Quantity.__json__ writes the unit in ratio format", "prefixed compound units whose ratio form does not parse (gray, kilowatt-hour)"),
+    "C17:A": ("lru_cache on the transformer's quantity callback (untyped)", "'1 m' then '1.0 m': magnitude type of the first"),
+    "C17:B": ("Quantity.parse fast path trusting str.isdigit() before int()", "'² m': ValueError escapes"),
+    "C18:A": ("power_ratio halved for base-e logarithms", "every neper level against the closed form"),
+    "C18:B": ("LogarithmicUnit.__init__ divides the reference's prefix out instead of multiplying it in", "reference given in a prefixed unit object (1 * (Milli*Watt))"),
+    "C19:A": ("Unit.derive returns early when the name is already bound to the unit", "re-derive under the same name with a new (or taken) symbol"),
+    "C19:B": ("conversions.translate gains a dimension check that fires after Dimension.scale registered the unit", "Dimension.scale with a zero point of another dimension raises and leaves the unit registered"),
+    "C20:A": ("one lazily created lock per registry key", "two threads create different lock objects for one key"),
+    "C20:B": ("two-variable module-level memo of the last base-change ratio in Prefix.__mul__/__truediv__", "torn update between two threads multiplying mixed-base prefixes"),
+    "C09:A": ("_by_complex_first sorts by numerator degree minus denominator degree (inverse dimensions after Number)", "lux (dimensionless factors and a denominator) no longer reaches cd/m**2"),
+    "C09:B": ("us.py: the litre value of the hogshead declared on Barrel (silently overwriting the barrel-litre ratio)", "barrel <-> L and shortest paths through that edge"),
+}
+ROUND, SRC, SUF = 3, "/tmp/seed3files", ""
+if os.environ.get("SEEDROUND") == "4":
+    DESC, ROUND, SRC, SUF = DESC4, 4, "/tmp/seed4files", "4"
+
 res = {}
 for path in sys.argv[1:]:
     for line in open(path):
@@ -51,10 +95,10 @@ for path in sys.argv[1:]:
             res["%s:%s" % (t[0], t[1])] = t  # later logs override earlier ones
 for key, (change, needs) in sorted(DESC.items()):
     pid, x = key.split(":")
-    src = "/tmp/seed3files/%s" % pid
+    src = "%s/%s" % (SRC, pid)
     if not os.path.exists("%s/%s.diff" % (src, x)):
         continue
-    dst = "/verif/seeded/%s_%s" % (pid, x)
+    dst = "/verif/seeded/%s_%s%s" % (pid, SUF, x)
     os.makedirs(dst, exist_ok=True)
     shutil.copy("%s/%s.diff" % (src, x), dst + "/patch.diff")
     shutil.copy("%s/demo_%s.py" % (src, x), dst + "/demo.py")
@@ -62,11 +106,11 @@ for key, (change, needs) in sorted(DESC.items()):
     lines = t[5] if t and len(t) > 5 else ""
     how = "not run" if not t else ("bounded stand-in (failing input replayed)" if "violation_" in lines else
                                    "failed obligation of changed code (no-failing-input-found)" if "refuted_" in lines else t[2])
-    json.dump({"property": pid, "round": 3, "change": change, "needs_to_manifest": needs,
+    json.dump({"property": pid, "round": ROUND, "change": change, "needs_to_manifest": needs,
                "result": t[2] if t else "not run", "caught_by": how, "first_lines": lines[:300],
                "ran": ["demo exits 0 on the unchanged tree and 1 with the patch (%s)" % (t[3] if t else "?"),
                        "pinned suite run by the authoring sub-agent in its worktree (872 passed with the two always-failing files deselected)",
                        "tools/seed3_battery.py: python3-vt -m checks.run %s --tier quick --src <scratch copy with the patch>" % pid],
                "origin": "fresh sub-agent given only the property text (statement, quantifier, anchors) and a scratch worktree"},
               open(dst + "/meta.json", "w"), indent=1)
-print("imported", len([k for k in DESC if os.path.exists('/verif/seeded/%s_%s' % tuple(k.split(':')))]))
+print("imported round", ROUND)
